@@ -439,6 +439,112 @@ func genRefCase(r *prng.R, id string) proto.Case {
 	return proto.Case{ID: id, Ops: ops}
 }
 
+// ---------------------------------------------------------------- borrowed processors (`otherFlow.key`)
+
+// genBorrowCase: flow f1 owns processors; flow f2 uses some of them with the dotted syntax `f1.key` (node key
+// `f1.key`, processor instance `key` of f1), among them answering ones; f2 may also own a processor with the SAME
+// bare key, wired differently in the response direction.
+func genBorrowCase(r *prng.R, id string) proto.Case {
+	c := &caseCfg{ptypes: vocab}
+	f1 := &flowDef{name: "f1", kind: "user"}
+	f1.procs = [][2]string{{"G", prng.Pick(r, []string{"PG", "PM", "PM"})}, {"H", prng.Pick(r, []string{"PU", "PA", "PM"})}}
+	f1.req = []connDef{{sStart, endp{'P', "H", ""}}, {endp{'P', "H", pick1(r, "H", f1, "req")}, sEnd}}
+	if r.Chance(50) {
+		f1.req = []connDef{{sStart, endp{'P', "H", ""}}, {endp{'P', "H", pick1(r, "H", f1, "req")}, endp{'P', "G", ""}}}
+	}
+	f1.res = []connDef{{endp{'P', "G", pick1(r, "G", f1, "res")}, sEnd}}
+	if r.Chance(40) {
+		f1.res = append([]connDef{{sStart, endp{'P', "H", ""}}, {endp{'P', "H", pick1(r, "H", f1, "res")}, sEnd}}, f1.res...)
+	}
+	f2 := &flowDef{name: "f2", kind: "user"}
+	f2.procs = [][2]string{{"A", prng.Pick(r, []string{"PA", "PU"})}, {"X", "PU"}, {"Y", "PU"}}
+	localG := r.Chance(55)
+	if localG {
+		f2.procs = append(f2.procs, [2]string{"G", prng.Pick(r, []string{"PU", "PM", "PG"})})
+	}
+	bor := "f1.G"
+	if r.Chance(5) {
+		bor = "nope.G" // borrowed from a flow that does not exist
+	}
+	// request: start -> A -> f1.G (borrowed, answers), sometimes also A -> local G / A -> f1.H -> end
+	f2.req = []connDef{{sStart, endp{'P', "A", ""}}, {endp{'P', "A", pick1(r, "A", f2, "req")}, endp{'P', bor, ""}}}
+	if localG && r.Chance(40) {
+		f2.req = append(f2.req, connDef{endp{'P', "A", pick1(r, "A", f2, "req")}, endp{'P', "G", ""}})
+	}
+	if r.Chance(40) {
+		f2.req = append(f2.req, connDef{endp{'P', "A", pick1(r, "A", f2, "req")}, endp{'P', "f1.H", ""}},
+			connDef{endp{'P', "f1.H", pick1(r, "H", f1, "req")}, sEnd})
+	}
+	// response: continuation of the borrowed node (mostly), continuation of the local G (differently), optional entry
+	var res []connDef
+	if r.Chance(88) {
+		to := sEnd
+		if r.Chance(75) {
+			to = endp{'P', "X", ""}
+		}
+		res = append(res, connDef{endp{'P', bor, pick1(r, "G", f1, "res")}, to})
+	}
+	if localG && r.Chance(80) {
+		to := endp{'P', "Y", ""}
+		if r.Chance(20) {
+			to = sEnd
+		}
+		res = append(res, connDef{endp{'P', "G", pick1(r, "G", f2, "res")}, to})
+	}
+	res = append(res, connDef{endp{'P', "X", ""}, sEnd}, connDef{endp{'P', "Y", ""}, sEnd})
+	if r.Chance(40) {
+		res = append([]connDef{{sStart, endp{'P', "Y", ""}}}, res...)
+	}
+	if r.Chance(15) {
+		prng.Shuffle(r, res)
+	}
+	f2.res = res
+	c.flows = []*flowDef{f1, f2}
+	order := []string{"f1", "f2"}
+	if r.Bool() {
+		order = []string{"f2", "f1"}
+	}
+	ops := c.opLines()
+	ops = append(ops, "load order="+strings.Join(order, ","))
+	for k := 0; k < 5; k++ {
+		dir := "req"
+		if k == 4 {
+			dir = "res"
+		}
+		var items []string
+		for _, fl := range c.flows {
+			for _, key := range []string{"A", "G", "H", "X", "Y"} {
+				for _, d := range []string{"req", "res"} {
+					if dir == "res" && d == "req" {
+						continue
+					}
+					v := "n:" + proto.Enc(prng.Pick(r, []string{"", "a", "b", "e"}))
+					if d == "req" && key == "G" && r.Chance(75) {
+						v = "e:" + proto.Enc(prng.Pick(r, []string{"", "e"}))
+					}
+					items = append(items, fl.name+"/"+key+"/"+d+"="+v)
+				}
+			}
+		}
+		ops = append(ops, "txn dir="+dir+" o="+strings.Join(items, ","))
+	}
+	return proto.Case{ID: id, Ops: ops}
+}
+
+// pick1: a condition valid for processor `key` of flow f in direction dir ("" if it has none)
+func pick1(r *prng.R, key string, f *flowDef, dir string) string {
+	for _, p := range f.procs {
+		if p[0] == key {
+			cs := validConds(ptypeByName(p[1]), dir)
+			if len(cs) == 0 {
+				return ""
+			}
+			return prng.Pick(r, cs)
+		}
+	}
+	return ""
+}
+
 // ---------------------------------------------------------------- exhaustive small scope (thorough tier)
 
 type candConn struct{ c connDef }
@@ -549,6 +655,9 @@ func gen(r *prng.R, f proto.Flags, emit func(proto.Case)) {
 	}
 	for k := 0; k < n; k++ {
 		emit(genRefCase(r.Fork(), fmt.Sprintf("r%d", k+1)))
+	}
+	for k := 0; k < n/2; k++ {
+		emit(genBorrowCase(r.Fork(), fmt.Sprintf("b%d", k+1)))
 	}
 	if f.Tier == "thorough" {
 		genExhaustive(emit)
